@@ -2,7 +2,10 @@ module verifharness
 
 go 1.23
 
-require github.com/diiyw/nodis v0.0.0
+require (
+	github.com/diiyw/nodis v0.0.0
+	google.golang.org/protobuf v1.34.2
+)
 
 require (
 	github.com/DataDog/zstd v1.4.5 // indirect
@@ -32,7 +35,6 @@ require (
 	golang.org/x/exp v0.0.0-20230626212559-97b1e661b5df // indirect
 	golang.org/x/sys v0.18.0 // indirect
 	golang.org/x/text v0.14.0 // indirect
-	google.golang.org/protobuf v1.34.2 // indirect
 )
 
 replace github.com/diiyw/nodis => /repo
